@@ -313,6 +313,7 @@ def c14(A, ctx, tier):
     cox.r_cox_reduction(A, ctx, dict(floor=15))
     cox.r_replicated_rows(A, ctx, {})
     cox.r_singleton_groups(A, ctx, {})
+    misc.r_inf_hyper(A, ctx, {})
     ctx.assume("limit reductions (gamma -> inf, delta -> inf), SLOPE vs L1, Gram vs CD are not decided")
     return dict(explanation="method-by-method equality of lifted terms under the substitution "
                 "that makes the general component coincide with the special one (weights := 1, "
